@@ -109,7 +109,7 @@ func genCall(t *rapid.T) (ast.Expr, jv.Val, string) {
 // C02: every built-in, every argument count, every argument type.
 func TestC02_Funcs(t *testing.T) {
 	c := collector("C02", "funcs")
-	rapid.Check(t, func(t *rapid.T) {
+	check(t, func(t *rapid.T) {
 		e, doc, name := genCall(t)
 		text := ast.RenderWith(e, gen.Chooser{T: t})
 		c.Case()
